@@ -1423,6 +1423,13 @@ static int _handle_sm(xmpp_conn_t *const conn,
         goto err_sm;
 
     if (strcmp(name, "enabled") == 0) {
+        if (!conn->sm_state->sm_enabled) {
+            /* we did not ask for it (e.g. <enabled/> in reply to <resume/>) */
+            strophe_error(conn->ctx, "xmpp",
+                          "SM error: unexpected <enabled/>.");
+            name = NULL;
+            goto err_sm;
+        }
         conn->sm_state->sm_handled_nr = 0;
         resume = xmpp_stanza_get_attribute(stanza, "resume");
         if (resume && (strcasecmp(resume, "true") || strcmp(resume, "1"))) {
@@ -1473,6 +1480,8 @@ static int _handle_sm(xmpp_conn_t *const conn,
         strophe_debug(conn->ctx, "xmpp", "Session resumed successfully.");
         _stream_negotiation_success(conn);
     } else if (strcmp(name, "failed") == 0) {
+        int was_resume = conn->sm_state->resume;
+
         name = NULL;
         conn->sm_state->sm_enabled = 0;
 
@@ -1512,6 +1521,12 @@ static int _handle_sm(xmpp_conn_t *const conn,
         if (bind) {
             /* resumption failed: bind a resource instead */
             _do_bind(conn, bind);
+        } else if (was_resume) {
+            /* resumption failed and the server did not offer <bind/> */
+            strophe_error(conn->ctx, "xmpp",
+                          "Stream features does not allow "
+                          "resource bind.");
+            xmpp_disconnect(conn);
         } else if (!conn->stream_negotiation_completed) {
             /* <enable/> was refused: go on without stream management */
             _stream_negotiation_success(conn);
